@@ -44,6 +44,9 @@ ASSUMPTIONS = ["string-level theorems also assume `lexical e`: symbol names are 
                "symbols are real or positive, never integer-valued (so exp.is_integer holds only for Integer literals)",
                "Float coefficients print in plain decimal notation; a bare top-level Float is out of scope",
                "round trip compared at generic real points where the original expression is finite"]
+# tables whose committed version may stand in as a hand-written model when the translator cannot read the source;
+# value = the correspondence that then ties it to the code (common.prove / common.decide)
+FALLBACK = {'SymTab': 'every generated expression printed by the real printer and read back through the real sympify with BOTH real symbol tables (structural and numeric round trip)'}
 MODELLED = ["ESRPrinter.parenthesize", "ESRPrinter.stringify", "ESRPrinter._print_Add", "ESRPrinter._print_Mul", "ESRPrinter._print_Pow",
             "ESRPrinter._print_Function", "ESRPrinter._print_Integer", "ESRPrinter._print_Rational", "ESRPrinter._print_Float",
             "ESRPrinter._print_Symbol"]
